@@ -432,7 +432,7 @@ func runPairStage(r *evid.Run) *pairStats {
 			key = fmt.Sprintf("%s/%d", p.Slot, ctypes.TransferAsset)
 		}
 		if !covered[key] {
-			evid.Fatalf("conflict table coverage gap: slot %s is registered for transaction type %s (0x%02x) but the check's class table has no colliding pair for it — extend classTable in engine/checks/c34/pairs.go", p.Slot, ctypes.TxType(p.Type).Name(), p.Type)
+			fatal("conflict table coverage gap: slot %s is registered for transaction type %s (0x%02x) but the check's class table has no colliding pair for it — extend classTable in engine/checks/c34/pairs.go", p.Slot, ctypes.TxType(p.Type).Name(), p.Type)
 		}
 	}
 	for _, c := range classTable {
@@ -449,7 +449,7 @@ func runPairStage(r *evid.Run) *pairStats {
 					a := newPtx(ma.kind, 0, ma.fields, "pairA")
 					b := newPtx(mb.kind, 1, mb.fields, "pairB")
 					if a.Hash() == b.Hash() {
-						evid.Fatalf("pair stage: %s built the same transaction twice", label)
+						fatal("pair stage: %s built the same transaction twice", label)
 					}
 					ckp := checkpoint.NewManager(params)
 					pool := mempool.NewTxPool(params, ckp)
@@ -466,7 +466,7 @@ func runPairStage(r *evid.Run) *pairStats {
 							err := pool.AppendToTxPoolWithoutEvent(tx)
 							if len(h) == 1 && err != nil {
 								ckp.Unregister("cp_txPool")
-								evid.Fatalf("pair stage: %s: transaction %s is not admitted alone (%v): the pair is not exercised", label, op, err)
+								fatal("pair stage: %s: transaction %s is not admitted alone (%v): the pair is not exercised", label, op, err)
 							}
 							if op == "B" && hi == 2 {
 								if err != nil {
